@@ -725,6 +725,9 @@ func main() {
 	for _, d := range env.Decls {
 		if d.Pkg == "ext" {
 			fmt.Fprintf(&ext, "type %s %s\n", d.Name, d.Under.Go(env, "ext"))
+			if d.Methods != "" {
+				ext.WriteString("\n" + gen.MethodSrc(d))
+			}
 		}
 	}
 	write(filepath.Join(*out, "ext", "ext.go"), ext.String())
